@@ -1,4 +1,6 @@
 import Frp.Model.VisitorLock
+import Frp.Model.XtcpVisitor
+import Frp.Props.C01
 /-
   C08 — Secret proxies admit only visitors holding the key and an allowed user.
 
@@ -18,6 +20,24 @@ import Frp.Model.VisitorLock
      (`finv_reachable`), the hand-over is the atomic NewConn of §1 at that moment
      (`finish_refines_newConn`), the queue invariant of §3 holds in every reachable state
      (`cqinv_reachable`); the predicate for one observed delivery (`deliveredOkB`).
+
+  §7 the xtcp visitor of frpc (client/visitor/xtcp.go, Frp/Model/XtcpVisitor.lean), a transition system over
+     labels (user connection arrives, openTunnel's ticker / fallback timeout / 20 s limit, makeNatHole
+     finished, pacing, keep-alive check, session broke, Close) for ALL histories: a user connection is
+     handed over at most once, to a tunnel stream or to the fallback visitor, never both
+     (`xv_served_once`, `xv_never_both`); it is closed unserved only without FallbackTo or when
+     TransferConn / the IV source fails (`xv_closed_reason`, `xv_fallback_never_drops`,
+     `xv_deadline_hands_over`); the fallback visitor gets it only with FallbackTo set and not before the
+     fallback timeout (`xv_hand_timing`); a tunnel session — hence any tunnel hand-over — exists only if
+     the server answered the visitor's PreCheck and its signed NatHoleVisitor positively, i.e. for the
+     proxy's key and an allowed user (`xv_hole_ok_iff`, `xv_hole_ok_entitled`, `xv_tunnel_entitled`);
+     starts of makeNatHole are ≥ 10 s apart (`xv_hole_starts_paced`); the keep-alive worker's failed
+     checks stay within the retry budget (`xv_keep_budget`); both ends pick the same session kind
+     (`xv_session_kinds_agree`).  ABSTRACT (inputs): STUN answered, traversal succeeded, session.Init
+     succeeded, when a session breaks, scheduling, time.
+  §8 the wrapper stacks of a tunnel stream (visitor's handleConn ↔ proxy's HandleTCPWorkConnection with the
+     SECRET key): mirror iff equal declarations, byte transparency both ways from C01's stack lemmas.
+  §9 the fallback visitor's request against NewConn; the predicate the `xtcp` driver engine evaluates.
 
   All theorems are for an arbitrary key derivation `H` (no property of md5 is used).
 -/
@@ -1281,6 +1301,1429 @@ example : (cstep false exH (crun false exH {} exLbls) (.finish 1 false)).2 = .fi
 -- the hypotheses of finish_delivery_sound are met
 example : (crun false exH {} exLbls).flights.find? (fun f => f.req.conn = 1) =
     some { req := exReq, lid := 0, sk := [115], allow := [[97]] } := by decide +kernel
+
+open XtcpVisitor
+
+/-! ## §7 the xtcp visitor of frpc (client/visitor/xtcp.go, Frp/Model/XtcpVisitor.lean) -/
+
+/-! ### makeNatHole against the server: a tunnel session only for the key and an allowed user -/
+
+/-- the visitor configured with `cfg`, logged in as `env.user`, is one the server must admit to the proxy -/
+def XtAdmitted (env : Env) (cfg : Cfg) : Prop :=
+  ∃ (ts : Int) (c : NatCfg), aget env.cfgs cfg.server = some c ∧
+    authKey env.H cfg.sk ts = authKey env.H c.sk ts ∧ UserAllowed c.allow env.user
+
+/-- the signed request is what `util.GetAuthKey(SecretKey, now)` gives for the timestamp sent along -/
+theorem xv_request_signed (H : Str → Str) (cfg : Cfg) (now : Int) : visitSign H cfg now = authKey H cfg.sk now := rfl
+
+/-- makeNatHole reaches session.Init only through all five stages -/
+theorem xv_hole_ok_iff (env : Env) (cfg : Cfg) (now : Int) (prepareOk punchOk initOk : Bool) :
+    holeRes env cfg now prepareOk punchOk initOk = .ok ↔
+      preAnswer env cfg = .preOk ∧ prepareOk = true ∧ (∃ ch, exchAnswer env cfg now = .granted ch) ∧
+        punchOk = true ∧ initOk = true := by
+  unfold holeRes
+  split
+  · next e h => simp [h]
+  · next ch h => simp [h]
+  · next h =>
+    cases prepareOk
+    · simp [h]
+    · simp only [Bool.not_true, Bool.false_eq_true, if_false, h, true_and]
+      split
+      · next e h2 => simp [h2]
+      · next h2 => simp [h2]
+      · next ch h2 => cases punchOk <;> cases initOk <;> simp [h2]
+
+/-- … and then the server has seen the proxy's key and an allowed user — whether or not the server's
+    session branch itself looks at the allow list (`env.fixed`): the pre-check does -/
+theorem xv_hole_ok_entitled (env : Env) (cfg : Cfg) (now : Int) (prepareOk punchOk initOk : Bool)
+    (h : holeRes env cfg now prepareOk punchOk initOk = .ok) : XtAdmitted env cfg := by
+  obtain ⟨hpre, _, ⟨ch, hex⟩, _, _⟩ := (xv_hole_ok_iff env cfg now prepareOk punchOk initOk).mp h
+  obtain ⟨c, hc, hu⟩ := precheck_sound env.fixed env.H env.cfgs [] [] cfg.server 0 [] env.user hpre
+  obtain ⟨c', hc', _, hk, _⟩ := nat_grant_partial env.fixed env.H env.cfgs [] [] cfg.server now (visitSign env.H cfg now) env.user ch hex
+  rw [hc] at hc'
+  cases hc'
+  exact ⟨now, c, hc, hk, hu⟩
+
+/-! ### basic facts about the state functions -/
+
+theorem find_map_phase (l : List Conn) (c c' : Nat) (p : Phase) :
+    (l.map (fun x => if x.id = c then { x with phase := p } else x)).find? (fun x => x.id == c') =
+      if c' = c then (l.find? (fun x => x.id == c)).map (fun x => { x with phase := p })
+      else l.find? (fun x => x.id == c') := by
+  induction l with
+  | nil => simp
+  | cons x t ih =>
+    by_cases hx : x.id = c
+    · by_cases hc : c' = c
+      · subst hc; simp [-List.find?_map, hx]
+      · have : ¬ c = c' := fun e => hc e.symm
+        simp only [hc, if_false] at ih
+        simp [-List.find?_map, hx, hc, this, ih]
+    · by_cases hc : c' = c
+      · subst hc
+        simp only [if_true] at ih
+        simp [-List.find?_map, hx, ih]
+      · simp only [hc, if_false] at ih
+        by_cases hx' : x.id = c'
+        · simp [-List.find?_map, hc, hx']
+        · simp [-List.find?_map, hx, hc, hx', ih]
+
+theorem getC_setPhase (s : St) (c c' : Nat) (p : Phase) :
+    getC (setPhase s c p) c' = if c' = c then (getC s c).map (fun x => { x with phase := p }) else getC s c' := by
+  unfold getC setPhase
+  exact find_map_phase s.conns c c' p
+
+theorem getC_id (s : St) (c : Nat) (x : Conn) (h : getC s c = some x) : x.id = c := by
+  unfold getC at h
+  have := List.find?_some h
+  simpa using this
+
+theorem opening_some (s : St) (c : Nat) (x : Conn) (h : opening? s c = some x) :
+    getC s c = some x ∧ x.phase = .opening ∧ x.id = c := by
+  unfold opening? at h
+  split at h
+  · next y hy =>
+    by_cases hp : y.phase = .opening
+    · simp [hp] at h; subst h; exact ⟨hy, hp, getC_id s c y hy⟩
+    · simp [hp] at h
+  · cases h
+
+/-- what getTunnelConn can do to the state -/
+theorem gt_cases (s : St) :
+    ((getTunnelConn s).2 = none ∨ ∃ k, (getTunnelConn s).2 = some k ∧ s.sess = some k ∧ (getTunnelConn s).1 = s) ∧
+    (getTunnelConn s).1.conns = s.conns ∧ (getTunnelConn s).1.hands = s.hands ∧ (getTunnelConn s).1.now = s.now ∧
+    (getTunnelConn s).1.closedV = s.closedV ∧ (getTunnelConn s).1.tokens = s.tokens ∧
+    (getTunnelConn s).1.keepFails = s.keepFails ∧ (getTunnelConn s).1.refills = s.refills ∧
+    (∀ k, (getTunnelConn s).1.sess = some k → s.sess = some k) ∧
+    (((getTunnelConn s).1.starter = s.starter ∧ (getTunnelConn s).1.starts = s.starts) ∨
+     (s.starter = .idle ∧ (getTunnelConn s).1.starter = .punching s.now ∧ (getTunnelConn s).1.starts = s.now :: s.starts)) := by
+  unfold getTunnelConn
+  split
+  · next k hs ha => exact ⟨.inr ⟨k, rfl, hs, rfl⟩, rfl, rfl, rfl, rfl, rfl, rfl, rfl, fun _ h => h, .inl ⟨rfl, rfl⟩⟩
+  · simp only [signalStart]
+    split
+    · next hst hcl =>
+      refine ⟨.inl (by first | rfl | trivial), rfl, rfl, rfl, rfl, rfl, rfl, rfl, ?_, .inr ⟨hst, rfl, rfl⟩⟩
+      intro k h; cases h
+    · refine ⟨.inl (by first | rfl | trivial), rfl, rfl, rfl, rfl, rfl, rfl, rfl, ?_, .inl ⟨rfl, rfl⟩⟩
+      intro k h; cases h
+
+/-! ### a user connection is served by exactly one of {tunnel, fallback visitor}, never both -/
+
+def servedN : Option Conn → Nat
+  | some x => match x.phase with
+    | .tunnel _ => 1
+    | .fallback => 1
+    | _ => 0
+  | none => 0
+
+def phaseOf : Dest → Phase
+  | .tunnel k => .tunnel k
+  | .fallback => .fallback
+
+def handsOf (hands : List Hand) (c : Nat) : List Hand := hands.filter (fun h => h.conn == c)
+
+/-- the number of hand-overs of `c` is 1 when it is joined to a tunnel stream or transferred, else 0 -/
+def HandInv (s : St) : Prop := ∀ c, (handsOf s.hands c).length = servedN (getC s c)
+
+/-- every recorded hand-over is what the connection's phase says -/
+def DestInv (s : St) : Prop :=
+  ∀ h ∈ s.hands, ∃ x, getC s h.conn = some x ∧ x.phase = phaseOf h.dest ∧ x.since = h.since
+
+/-- how one label changes connections and hand-overs: nothing, the opening connection `x` is closed, or it
+    is handed over once -/
+inductive Upd (s : St) (x : Conn) : St → Prop
+  | same (s' : St) (hc : s'.conns = s.conns) (hh : s'.hands = s.hands) : Upd s x s'
+  | drop (s' : St) (w : Why) (hc : s'.conns = (setPhase s x.id (.closed w)).conns) (hh : s'.hands = s.hands) : Upd s x s'
+  | hand (s' : St) (h : Hand) (hc : s'.conns = (setPhase s x.id (phaseOf h.dest)).conns) (hh : s'.hands = h :: s.hands)
+      (hid : h.conn = x.id) (hs : h.since = x.since) : Upd s x s'
+
+theorem getC_congr {s s' : St} (h : s'.conns = s.conns) (c : Nat) : getC s' c = getC s c := by
+  unfold getC; rw [h]
+
+theorem upd_inv (s s' : St) (x : Conn) (hx : getC s x.id = some x) (hp : x.phase = .opening) (u : Upd s x s')
+    (hi : HandInv s) (hd : DestInv s) : HandInv s' ∧ DestInv s' := by
+  have h0 : (handsOf s.hands x.id).length = 0 := by rw [hi x.id, hx]; simp [servedN, hp]
+  cases u with
+  | same hc hh =>
+    constructor
+    · intro c; rw [hh, getC_congr hc]; exact hi c
+    · intro h hm; rw [hh] at hm; rw [getC_congr hc]; exact hd h hm
+  | drop w hc hh =>
+    constructor
+    · intro c
+      rw [hh, getC_congr hc, getC_setPhase]
+      by_cases e : c = x.id
+      · subst e; simp [hx, servedN, h0]
+      · simp [e, hi c]
+    · intro h hm
+      rw [hh] at hm
+      obtain ⟨y, hy, hyp, hys⟩ := hd h hm
+      rw [getC_congr hc, getC_setPhase]
+      by_cases e : h.conn = x.id
+      · exfalso
+        rw [e, hx] at hy
+        cases hy
+        rw [hp] at hyp
+        cases hdst : h.dest <;> simp [hdst, phaseOf] at hyp
+      · simp [e]; exact ⟨y, hy, hyp, hys⟩
+  | hand h hc hh hid hs =>
+    constructor
+    · intro c
+      rw [hh, getC_congr hc, getC_setPhase]
+      by_cases e : c = x.id
+      · subst e
+        have : (handsOf (h :: s.hands) x.id).length = 1 := by
+          simp only [handsOf, List.filter_cons, hid, beq_self_eq_true, if_true, List.length_cons]
+          have := h0
+          simp only [handsOf] at this
+          omega
+        rw [this]
+        cases hdst : h.dest <;> simp [hx, servedN, phaseOf]
+      · have hne : ¬ h.conn = c := by rw [hid]; exact fun e' => e e'.symm
+        simp only [e, if_false, handsOf, List.filter_cons]
+        have : (h.conn == c) = false := by simp [hne]
+        rw [this]
+        exact hi c
+    · intro h' hm
+      rw [hh] at hm
+      rw [getC_congr hc, getC_setPhase]
+      rcases List.mem_cons.mp hm with e | hm'
+      · subst e
+        simp [hid, hx, hs]
+      · obtain ⟨y, hy, hyp, hys⟩ := hd h' hm'
+        by_cases e : h'.conn = x.id
+        · exfalso
+          rw [e, hx] at hy
+          cases hy
+          rw [hp] at hyp
+          cases hdst : h'.dest <;> simp [hdst, phaseOf] at hyp
+        · simp [e]; exact ⟨y, hy, hyp, hys⟩
+
+theorem setPhase_hands (s : St) (c : Nat) (p : Phase) : (setPhase s c p).hands = s.hands := rfl
+
+theorem joinTunnel_upd (cfg : Cfg) (s : St) (x : Conn) (k : Nat) (ivOk : Bool) : Upd s x (joinTunnel cfg s x k ivOk) := by
+  unfold joinTunnel
+  split
+  · exact .drop _ .encFailed rfl rfl
+  · exact .hand _ { conn := x.id, dest := .tunnel k, cause := .stream, time := s.now, since := x.since } rfl rfl rfl rfl
+
+theorem attempt_upd (cfg : Cfg) (s : St) (x : Conn) (ivOk : Bool) : Upd s x (attempt cfg s x ivOk) := by
+  unfold attempt
+  have g := gt_cases s
+  split
+  · next s1 k hg =>
+    have h1 : (getTunnelConn s).1 = s1 := by rw [hg]
+    have h2 : (getTunnelConn s).2 = some k := by rw [hg]
+    rcases g.1 with hn | ⟨k', hk', _, hs⟩
+    · rw [h2] at hn; cases hn
+    · rw [h1] at hs; subst hs; exact joinTunnel_upd cfg s1 x k ivOk
+  · next s1 hg =>
+    have h1 : (getTunnelConn s).1 = s1 := by rw [hg]
+    rw [← h1]
+    exact .same _ g.2.1 g.2.2.1
+
+theorem giveUp_upd (cfg : Cfg) (s : St) (x : Conn) (cause : Cause) (xferOk : Bool) : Upd s x (giveUp cfg s x cause xferOk) := by
+  unfold giveUp
+  split
+  · exact .drop _ .noTunnel rfl rfl
+  · split
+    · exact .drop _ .transferFailed rfl rfl
+    · exact .hand _ { conn := x.id, dest := .fallback, cause := cause, time := s.now, since := x.since } rfl rfl rfl rfl
+
+/-- labels that do not touch connections or hand-overs -/
+theorem frame_inv (s s' : St) (hc : s'.conns = s.conns) (hh : s'.hands = s.hands) (hi : HandInv s) (hd : DestInv s) :
+    HandInv s' ∧ DestInv s' := by
+  constructor
+  · intro c; rw [hh, getC_congr hc]; exact hi c
+  · intro h hm; rw [hh] at hm; rw [getC_congr hc]; exact hd h hm
+
+theorem served_step (env : Env) (cfg : Cfg) (s : St) (e : Ev) (hi : HandInv s) (hd : DestInv s) :
+    HandInv (xstep env cfg s e) ∧ DestInv (xstep env cfg s e) := by
+  cases e with
+  | advance d => exact frame_inv s _ rfl rfl hi hd
+  | arrive c ivOk =>
+    simp only [xstep]
+    split
+    · exact ⟨hi, hd⟩
+    · split
+      · exact ⟨hi, hd⟩
+      · next hnone =>
+        -- the new connection, opening, no hand-over yet
+        let x : Conn := { id := c, since := s.now, phase := .opening }
+        let s0 : St := { s with conns := x :: s.conns }
+        have hx0 : getC s0 x.id = some x := by simp [getC, s0, x]
+        have hget : ∀ c', getC s0 c' = if c' = c then some x else getC s c' := by
+          intro c'
+          by_cases e : c' = c
+          · subst e; simp [getC, s0, x]
+          · have : ¬ c = c' := fun e' => e e'.symm
+            simp [getC, s0, x, e, this]
+        have hi0 : HandInv s0 := by
+          intro c'
+          rw [hget]
+          by_cases e : c' = c
+          · subst e; simp [servedN, x]; have := hi c'; rw [hnone] at this; simpa [servedN, s0] using this
+          · simp [e]; exact hi c'
+        have hd0 : DestInv s0 := by
+          intro h hm
+          obtain ⟨y, hy, hyp, hys⟩ := hd h hm
+          rw [hget]
+          by_cases e : h.conn = c
+          · rw [e, hnone] at hy; cases hy
+          · simp [e]; exact ⟨y, hy, hyp, hys⟩
+        exact upd_inv s0 _ x hx0 rfl (attempt_upd cfg s0 x ivOk) hi0 hd0
+  | tick c ivOk =>
+    simp only [xstep]
+    split
+    · next x hx =>
+      obtain ⟨hg, hp, hid⟩ := opening_some s c x hx
+      exact upd_inv s _ x (hid ▸ hg) hp (attempt_upd cfg s x ivOk) hi hd
+    · exact ⟨hi, hd⟩
+  | ctxDone c xferOk =>
+    simp only [xstep]
+    split
+    · next x hx =>
+      obtain ⟨hg, hp, hid⟩ := opening_some s c x hx
+      split
+      · exact upd_inv s _ x (hid ▸ hg) hp (giveUp_upd cfg s x _ xferOk) hi hd
+      · exact ⟨hi, hd⟩
+    · exact ⟨hi, hd⟩
+  | limit20 c xferOk =>
+    simp only [xstep]
+    split
+    · next x hx =>
+      obtain ⟨hg, hp, hid⟩ := opening_some s c x hx
+      split
+      · exact upd_inv s _ x (hid ▸ hg) hp (giveUp_upd cfg s x _ xferOk) hi hd
+      · exact ⟨hi, hd⟩
+    · exact ⟨hi, hd⟩
+  | vctxDone c xferOk =>
+    simp only [xstep]
+    split
+    · next x hx =>
+      obtain ⟨hg, hp, hid⟩ := opening_some s c x hx
+      split
+      · exact upd_inv s _ x (hid ▸ hg) hp (giveUp_upd cfg s x _ xferOk) hi hd
+      · exact ⟨hi, hd⟩
+    · exact ⟨hi, hd⟩
+  | hole ts a b c =>
+    simp only [xstep]
+    split
+    · split <;> split <;> exact frame_inv s _ rfl rfl hi hd
+    · exact ⟨hi, hd⟩
+  | coolDone =>
+    simp only [xstep]
+    split
+    · split
+      · exact frame_inv s _ rfl rfl hi hd
+      · exact ⟨hi, hd⟩
+    · exact ⟨hi, hd⟩
+  | peerGone => exact frame_inv s _ rfl rfl hi hd
+  | keepTick =>
+    simp only [xstep]
+    have g := gt_cases s
+    split
+    · exact ⟨hi, hd⟩
+    · split
+      · next s1 k hg =>
+        have h1 : (getTunnelConn s).1 = s1 := by rw [hg]
+        rw [← h1]; exact frame_inv s _ g.2.1 g.2.2.1 hi hd
+      · next s1 hg =>
+        have h1 : (getTunnelConn s).1 = s1 := by rw [hg]
+        split
+        · rw [← h1]; exact frame_inv s _ g.2.1 g.2.2.1 hi hd
+        · exact frame_inv s _ (by rw [← h1]; exact g.2.1) (by rw [← h1]; exact g.2.2.1) hi hd
+  | refill =>
+    simp only [xstep]
+    split
+    · exact frame_inv s _ rfl rfl hi hd
+    · exact ⟨hi, hd⟩
+  | close => exact frame_inv s _ rfl rfl hi hd
+
+theorem served_init (cfg : Cfg) : HandInv (xinit cfg) ∧ DestInv (xinit cfg) := by
+  unfold xinit
+  split <;> exact ⟨fun c => by simp [handsOf, getC, servedN], fun h hm => by cases hm⟩
+
+theorem served_reachable (env : Env) (cfg : Cfg) (es : List Ev) :
+    ∀ s, HandInv s → DestInv s → HandInv (xrun env cfg s es) ∧ DestInv (xrun env cfg s es) := by
+  induction es with
+  | nil => intro s hi hd; exact ⟨hi, hd⟩
+  | cons e es ih => intro s hi hd; exact ih _ (served_step env cfg s e hi hd).1 (served_step env cfg s e hi hd).2
+
+/-- for every history of labels: each user connection has been handed over at most once, and exactly once
+    iff it is joined to a tunnel stream or transferred to the fallback visitor -/
+theorem xv_served_once (env : Env) (cfg : Cfg) (es : List Ev) (c : Nat) :
+    (handsOf (xrun env cfg (xinit cfg) es).hands c).length ≤ 1 ∧
+    ((handsOf (xrun env cfg (xinit cfg) es).hands c).length = 1 ↔
+      ∃ x, getC (xrun env cfg (xinit cfg) es) c = some x ∧ (x.phase = .fallback ∨ ∃ k, x.phase = .tunnel k)) := by
+  have h := (served_reachable env cfg es (xinit cfg) (served_init cfg).1 (served_init cfg).2).1 c
+  rw [h]
+  cases hg : getC (xrun env cfg (xinit cfg) es) c with
+  | none => simp [servedN]
+  | some x => cases hp : x.phase <;> simp [servedN, hp]
+
+/-- … never by both: two hand-overs of the same connection have the same destination (same tunnel session
+    or both the fallback visitor) — and by `xv_served_once` they are the same record -/
+theorem xv_never_both (env : Env) (cfg : Cfg) (es : List Ev) (h1 h2 : Hand)
+    (m1 : h1 ∈ (xrun env cfg (xinit cfg) es).hands) (m2 : h2 ∈ (xrun env cfg (xinit cfg) es).hands)
+    (hc : h1.conn = h2.conn) : h1.dest = h2.dest := by
+  have hd := (served_reachable env cfg es (xinit cfg) (served_init cfg).1 (served_init cfg).2).2
+  obtain ⟨x1, g1, p1, _⟩ := hd h1 m1
+  obtain ⟨x2, g2, p2, _⟩ := hd h2 m2
+  rw [hc, g2] at g1
+  cases g1
+  rw [p2] at p1
+  cases d1 : h1.dest <;> cases d2 : h2.dest <;> simp [d1, d2, phaseOf] at p1 <;> simp [p1]
+
+/-! ### never dropped silently while a fallback is configured -/
+
+/-- why a user connection can end up closed without having been served -/
+def ClosedInv (cfg : Cfg) (s : St) : Prop :=
+  ∀ c x w, getC s c = some x → x.phase = .closed w →
+    (w = .noTunnel ∧ cfg.fallback = false) ∨ (w = .transferFailed ∧ cfg.fallback = true) ∨ (w = .encFailed ∧ cfg.enc = true)
+
+/-- labels on which neither helper.TransferConn nor the IV source fails -/
+def GoodEv : Ev → Bool
+  | .arrive _ ivOk => ivOk
+  | .tick _ ivOk => ivOk
+  | .ctxDone _ xferOk => xferOk
+  | .limit20 _ xferOk => xferOk
+  | .vctxDone _ xferOk => xferOk
+  | _ => true
+
+/-- no connection is closed at all -/
+def NoneClosed (s : St) : Prop := ∀ c x w, getC s c = some x → x.phase ≠ .closed w
+
+/-- what `attempt` can do to a connection's phase, to the hand-overs, and which other fields it leaves alone -/
+theorem joinTunnel_char (cfg : Cfg) (s : St) (x : Conn) (k : Nat) (ivOk : Bool) :
+    (∀ c y, getC (joinTunnel cfg s x k ivOk) c = some y → getC s c = some y ∨
+      (c = x.id ∧ ((y.phase = .closed .encFailed ∧ cfg.enc = true ∧ ivOk = false) ∨ y.phase = .tunnel k))) ∧
+    (∀ h ∈ (joinTunnel cfg s x k ivOk).hands, h ∈ s.hands ∨
+      h = { conn := x.id, dest := .tunnel k, cause := .stream, time := s.now, since := x.since }) := by
+  unfold joinTunnel
+  split
+  · next hc =>
+    simp only [Bool.and_eq_true, Bool.not_eq_true'] at hc
+    refine ⟨?_, fun h hm => .inl hm⟩
+    intro c y hy
+    rw [getC_setPhase] at hy
+    by_cases e : c = x.id
+    · subst e
+      right
+      cases hg : getC s x.id with
+      | none => simp [hg] at hy
+      | some z => simp [hg] at hy; exact ⟨rfl, .inl ⟨by rw [← hy], hc.1, hc.2⟩⟩
+    · left; simpa [e] using hy
+  · refine ⟨?_, ?_⟩
+    · intro c y hy
+      have hy' : getC (setPhase s x.id (.tunnel k)) c = some y := by rw [← hy]; rfl
+      rw [getC_setPhase] at hy'
+      by_cases e : c = x.id
+      · subst e
+        right
+        cases hg : getC s x.id with
+        | none => simp [hg] at hy'
+        | some z => simp [hg] at hy'; exact ⟨rfl, .inr (by rw [← hy'])⟩
+      · left; simpa [e] using hy'
+    · intro h hm
+      rcases List.mem_cons.mp hm with e | hm'
+      · exact .inr e
+      · exact .inl hm'
+
+theorem attempt_char (cfg : Cfg) (s : St) (x : Conn) (ivOk : Bool) :
+    (∀ c y, getC (attempt cfg s x ivOk) c = some y → getC s c = some y ∨
+      (c = x.id ∧ ((y.phase = .closed .encFailed ∧ cfg.enc = true ∧ ivOk = false) ∨ ∃ k, y.phase = .tunnel k))) ∧
+    (∀ h ∈ (attempt cfg s x ivOk).hands, h ∈ s.hands ∨
+      ∃ k, s.sess = some k ∧ h = { conn := x.id, dest := .tunnel k, cause := .stream, time := s.now, since := x.since }) := by
+  unfold attempt
+  have g := gt_cases s
+  split
+  · next s1 k hg =>
+    have h1 : (getTunnelConn s).1 = s1 := by rw [hg]
+    have h2 : (getTunnelConn s).2 = some k := by rw [hg]
+    rcases g.1 with hn | ⟨k', hk', hsess, hs⟩
+    · rw [h2] at hn; cases hn
+    · rw [h1] at hs; subst hs
+      rw [h2] at hk'; cases hk'
+      have j := joinTunnel_char cfg s1 x k ivOk
+      refine ⟨?_, ?_⟩
+      · intro c y hy
+        rcases j.1 c y hy with a | ⟨e, b⟩
+        · exact .inl a
+        · exact .inr ⟨e, b.elim .inl (fun t => .inr ⟨k, t⟩)⟩
+      · intro h hm
+        rcases j.2 h hm with a | b
+        · exact .inl a
+        · exact .inr ⟨k, hsess, b⟩
+  · next s1 hg =>
+    have h1 : (getTunnelConn s).1 = s1 := by rw [hg]
+    rw [← h1]
+    refine ⟨fun c y hy => .inl (by rw [← getC_congr g.2.1]; exact hy), fun h hm => .inl (by rw [← g.2.2.1]; exact hm)⟩
+
+theorem giveUp_char (cfg : Cfg) (s : St) (x : Conn) (cause : Cause) (xferOk : Bool) :
+    (∀ c y, getC (giveUp cfg s x cause xferOk) c = some y → getC s c = some y ∨
+      (c = x.id ∧ ((y.phase = .closed .noTunnel ∧ cfg.fallback = false) ∨
+                   (y.phase = .closed .transferFailed ∧ cfg.fallback = true ∧ xferOk = false) ∨ y.phase = .fallback))) ∧
+    (∀ h ∈ (giveUp cfg s x cause xferOk).hands, h ∈ s.hands ∨
+      (cfg.fallback = true ∧ h = { conn := x.id, dest := .fallback, cause := cause, time := s.now, since := x.since })) := by
+  have key : ∀ (p : Phase) (s' : St), s'.conns = (setPhase s x.id p).conns → ∀ c y, getC s' c = some y →
+      getC s c = some y ∨ (c = x.id ∧ y.phase = p) := by
+    intro p s' hc c y hy
+    rw [getC_congr hc, getC_setPhase] at hy
+    by_cases e : c = x.id
+    · subst e
+      right
+      cases hg : getC s x.id with
+      | none => simp [hg] at hy
+      | some z => simp [hg] at hy; exact ⟨rfl, by rw [← hy]⟩
+    · left; simpa [e] using hy
+  unfold giveUp
+  split
+  · next hf =>
+    simp only [Bool.not_eq_true'] at hf
+    refine ⟨fun c y hy => (key _ _ rfl c y hy).elim .inl (fun t => .inr ⟨t.1, .inl ⟨t.2, hf⟩⟩), fun h hm => .inl hm⟩
+  · next hf =>
+    simp only [Bool.not_eq_true', Bool.not_eq_false] at hf
+    split
+    · next hx =>
+      simp only [Bool.not_eq_true'] at hx
+      refine ⟨fun c y hy => (key _ _ rfl c y hy).elim .inl (fun t => .inr ⟨t.1, .inr (.inl ⟨t.2, hf, hx⟩)⟩), fun h hm => .inl hm⟩
+    · refine ⟨fun c y hy => (key .fallback _ rfl c y hy).elim .inl (fun t => .inr ⟨t.1, .inr (.inr t.2)⟩), ?_⟩
+      intro h hm
+      rcases List.mem_cons.mp hm with e | hm'
+      · exact .inr ⟨hf, e⟩
+      · exact .inl hm'
+
+/-- a hand-over made in state `s`: to a stream of the session that exists then, or — only with FallbackTo set —
+    to the fallback visitor after the fallback timeout, after openTunnel's 20 s, or because the visitor was closed -/
+def NewHand (cfg : Cfg) (s : St) (h : Hand) : Prop :=
+  h.time = s.now ∧
+  ((∃ k, h.dest = .tunnel k ∧ h.cause = .stream ∧ s.sess = some k) ∨
+   (h.dest = .fallback ∧ cfg.fallback = true ∧
+     ((h.cause = .deadline ∧ h.since + cfg.fallbackMs ≤ s.now) ∨ (h.cause = .limit20 ∧ h.since + 20000 ≤ s.now) ∨
+      (h.cause = .vclosed ∧ s.closedV = true))))
+
+def Reason (cfg : Cfg) (e : Ev) (w : Why) : Prop :=
+  (w = .noTunnel ∧ cfg.fallback = false) ∨ (w = .transferFailed ∧ cfg.fallback = true ∧ GoodEv e = false) ∨
+  (w = .encFailed ∧ cfg.enc = true ∧ GoodEv e = false)
+
+theorem step_hands (env : Env) (cfg : Cfg) (s : St) (e : Ev) :
+    ∀ h ∈ (xstep env cfg s e).hands, h ∈ s.hands ∨ NewHand cfg s h := by
+  have fromAttempt : ∀ (s0 : St) (x : Conn) (ivOk : Bool), s0.hands = s.hands → s0.sess = s.sess → s0.now = s.now →
+      ∀ h ∈ (attempt cfg s0 x ivOk).hands, h ∈ s.hands ∨ NewHand cfg s h := by
+    intro s0 x ivOk hh hs hn h hm
+    rcases (attempt_char cfg s0 x ivOk).2 h hm with a | ⟨k, hk, e⟩
+    · exact .inl (hh ▸ a)
+    · subst e; exact .inr ⟨hn, .inl ⟨k, rfl, rfl, hs ▸ hk⟩⟩
+  cases e with
+  | advance d => exact fun h hm => .inl hm
+  | arrive c ivOk =>
+    simp only [xstep]
+    split
+    · exact fun h hm => .inl hm
+    · split
+      · exact fun h hm => .inl hm
+      · exact fromAttempt _ _ ivOk rfl rfl rfl
+  | tick c ivOk =>
+    simp only [xstep]
+    split
+    · exact fromAttempt s _ ivOk rfl rfl rfl
+    · exact fun h hm => .inl hm
+  | ctxDone c xferOk =>
+    simp only [xstep]
+    split
+    · next x hx =>
+      split
+      · next hg =>
+        simp only [Bool.and_eq_true, decide_eq_true_eq] at hg
+        intro h hm
+        rcases (giveUp_char cfg s x .deadline xferOk).2 h hm with a | ⟨hf, e⟩
+        · exact .inl a
+        · subst e; exact .inr ⟨rfl, .inr ⟨rfl, hf, .inl ⟨rfl, hg.2⟩⟩⟩
+      · exact fun h hm => .inl hm
+    · exact fun h hm => .inl hm
+  | limit20 c xferOk =>
+    simp only [xstep]
+    split
+    · next x hx =>
+      split
+      · next hg =>
+        simp only [decide_eq_true_eq] at hg
+        intro h hm
+        rcases (giveUp_char cfg s x .limit20 xferOk).2 h hm with a | ⟨hf, e⟩
+        · exact .inl a
+        · subst e; exact .inr ⟨rfl, .inr ⟨rfl, hf, .inr (.inl ⟨rfl, hg⟩)⟩⟩
+      · exact fun h hm => .inl hm
+    · exact fun h hm => .inl hm
+  | vctxDone c xferOk =>
+    simp only [xstep]
+    split
+    · next x hx =>
+      split
+      · next hg =>
+        intro h hm
+        rcases (giveUp_char cfg s x .vclosed xferOk).2 h hm with a | ⟨hf, e⟩
+        · exact .inl a
+        · subst e; exact .inr ⟨rfl, .inr ⟨rfl, hf, .inr (.inr ⟨rfl, hg⟩)⟩⟩
+      · exact fun h hm => .inl hm
+    · exact fun h hm => .inl hm
+  | hole ts a b c =>
+    simp only [xstep]
+    split
+    · split <;> split <;> exact fun h hm => .inl hm
+    · exact fun h hm => .inl hm
+  | coolDone =>
+    simp only [xstep]
+    split
+    · split <;> exact fun h hm => .inl hm
+    · exact fun h hm => .inl hm
+  | peerGone => exact fun h hm => .inl hm
+  | keepTick =>
+    simp only [xstep]
+    have g := gt_cases s
+    split
+    · exact fun h hm => .inl hm
+    · split
+      · next s1 k hg =>
+        have h1 : (getTunnelConn s).1 = s1 := by rw [hg]
+        rw [← h1, g.2.2.1]; exact fun h hm => .inl hm
+      · next s1 hg =>
+        have h1 : (getTunnelConn s).1 = s1 := by rw [hg]
+        split
+        · rw [← h1, g.2.2.1]; exact fun h hm => .inl hm
+        · intro h hm
+          have : h ∈ s1.hands := hm
+          rw [← h1, g.2.2.1] at this
+          exact .inl this
+  | refill =>
+    simp only [xstep]
+    split <;> exact fun h hm => .inl hm
+  | close => exact fun h hm => .inl hm
+
+theorem step_phase (env : Env) (cfg : Cfg) (s : St) (e : Ev) (c : Nat) (y : Conn)
+    (hy : getC (xstep env cfg s e) c = some y) :
+    getC s c = some y ∨ y.phase = .opening ∨ (∃ k, y.phase = .tunnel k) ∨ y.phase = .fallback ∨
+      ∃ w, y.phase = .closed w ∧ Reason cfg e w := by
+  have fromAttempt : ∀ (s0 : St) (x : Conn) (ivOk : Bool), GoodEv e = ivOk →
+      getC (attempt cfg s0 x ivOk) c = some y →
+      getC s0 c = some y ∨ (∃ k, y.phase = .tunnel k) ∨ ∃ w, y.phase = .closed w ∧ Reason cfg e w := by
+    intro s0 x ivOk hg h
+    rcases (attempt_char cfg s0 x ivOk).1 c y h with a | ⟨_, b | b⟩
+    · exact .inl a
+    · exact .inr (.inr ⟨_, b.1, .inr (.inr ⟨rfl, b.2.1, hg ▸ b.2.2⟩)⟩)
+    · exact .inr (.inl b)
+  have fromGiveUp : ∀ (x : Conn) (cause : Cause) (xferOk : Bool), GoodEv e = xferOk →
+      getC (giveUp cfg s x cause xferOk) c = some y →
+      getC s c = some y ∨ y.phase = .fallback ∨ ∃ w, y.phase = .closed w ∧ Reason cfg e w := by
+    intro x cause xferOk hg h
+    rcases (giveUp_char cfg s x cause xferOk).1 c y h with a | ⟨_, b | b | b⟩
+    · exact .inl a
+    · exact .inr (.inr ⟨_, b.1, .inl ⟨rfl, b.2⟩⟩)
+    · exact .inr (.inr ⟨_, b.1, .inr (.inl ⟨rfl, b.2.1, hg ▸ b.2.2⟩)⟩)
+    · exact .inr (.inl b)
+  cases e with
+  | advance d => exact .inl hy
+  | arrive c0 ivOk =>
+    simp only [xstep] at hy
+    split at hy
+    · exact .inl hy
+    · split at hy
+      · exact .inl hy
+      · rcases fromAttempt _ _ ivOk rfl hy with a | b | b
+        · by_cases e : c = c0
+          · subst e
+            have : y = { id := c, since := s.now, phase := .opening } := by
+              simp [getC] at a; exact a.symm
+            subst this; exact .inr (.inl rfl)
+          · have hne : ¬ c0 = c := fun e' => e e'.symm
+            left
+            simpa [getC, hne] using a
+        · exact .inr (.inr (.inl b))
+        · exact .inr (.inr (.inr (.inr b)))
+  | tick c0 ivOk =>
+    simp only [xstep] at hy
+    split at hy
+    · rcases fromAttempt s _ ivOk rfl hy with a | b | b
+      · exact .inl a
+      · exact .inr (.inr (.inl b))
+      · exact .inr (.inr (.inr (.inr b)))
+    · exact .inl hy
+  | ctxDone c0 xferOk =>
+    simp only [xstep] at hy
+    split at hy
+    · split at hy
+      · rcases fromGiveUp _ _ xferOk rfl hy with a | b | b
+        · exact .inl a
+        · exact .inr (.inr (.inr (.inl b)))
+        · exact .inr (.inr (.inr (.inr b)))
+      · exact .inl hy
+    · exact .inl hy
+  | limit20 c0 xferOk =>
+    simp only [xstep] at hy
+    split at hy
+    · split at hy
+      · rcases fromGiveUp _ _ xferOk rfl hy with a | b | b
+        · exact .inl a
+        · exact .inr (.inr (.inr (.inl b)))
+        · exact .inr (.inr (.inr (.inr b)))
+      · exact .inl hy
+    · exact .inl hy
+  | vctxDone c0 xferOk =>
+    simp only [xstep] at hy
+    split at hy
+    · split at hy
+      · rcases fromGiveUp _ _ xferOk rfl hy with a | b | b
+        · exact .inl a
+        · exact .inr (.inr (.inr (.inl b)))
+        · exact .inr (.inr (.inr (.inr b)))
+      · exact .inl hy
+    · exact .inl hy
+  | hole ts a b c0 =>
+    simp only [xstep] at hy
+    split at hy
+    · split at hy <;> split at hy <;> exact .inl hy
+    · exact .inl hy
+  | coolDone =>
+    simp only [xstep] at hy
+    split at hy
+    · split at hy <;> exact .inl hy
+    · exact .inl hy
+  | peerGone => exact .inl hy
+  | keepTick =>
+    simp only [xstep] at hy
+    have g := gt_cases s
+    split at hy
+    · exact .inl hy
+    · split at hy
+      · next s1 k hg =>
+        have h1 : (getTunnelConn s).1 = s1 := by rw [hg]
+        rw [← h1, getC_congr g.2.1] at hy; exact .inl hy
+      · next s1 hg =>
+        have h1 : (getTunnelConn s).1 = s1 := by rw [hg]
+        split at hy
+        · rw [← h1, getC_congr g.2.1] at hy; exact .inl hy
+        · have : getC s1 c = some y := hy
+          rw [← h1, getC_congr g.2.1] at this; exact .inl this
+  | refill =>
+    simp only [xstep] at hy
+    split at hy <;> exact .inl hy
+  | close => exact .inl hy
+
+/-- the fields other than connections and hand-overs -/
+structure Rest where
+  now : Nat
+  sess : Option Nat
+  alive : Bool
+  starter : Starter
+  starts : List Nat
+  closedV : Bool
+  tokens : Nat
+  keepFails : Nat
+  refills : Nat
+  nextSess : Nat
+
+def rest (s : St) : Rest :=
+  { now := s.now, sess := s.sess, alive := s.alive, starter := s.starter, starts := s.starts, closedV := s.closedV,
+    tokens := s.tokens, keepFails := s.keepFails, refills := s.refills, nextSess := s.nextSess }
+
+theorem joinTunnel_rest (cfg : Cfg) (s : St) (x : Conn) (k : Nat) (ivOk : Bool) : rest (joinTunnel cfg s x k ivOk) = rest s := by
+  unfold joinTunnel; split <;> rfl
+
+theorem attempt_rest (cfg : Cfg) (s : St) (x : Conn) (ivOk : Bool) : rest (attempt cfg s x ivOk) = rest (getTunnelConn s).1 := by
+  unfold attempt
+  split
+  · next s1 k hg => rw [joinTunnel_rest, hg]
+  · next s1 hg => rw [hg]
+
+theorem giveUp_rest (cfg : Cfg) (s : St) (x : Conn) (cause : Cause) (xferOk : Bool) : rest (giveUp cfg s x cause xferOk) = rest s := by
+  unfold giveUp; split
+  · rfl
+  · split <;> rfl
+
+def rsignal (r : Rest) : Rest :=
+  match r.starter, r.closedV with
+  | .idle, false => { r with starter := .punching r.now, starts := r.now :: r.starts }
+  | _, _ => r
+
+def rgt (r : Rest) : Rest :=
+  match r.sess, r.alive with
+  | some _, true => r
+  | _, _ => rsignal { r with sess := none, alive := false }
+
+def rgtOk (r : Rest) : Bool :=
+  match r.sess, r.alive with
+  | some _, true => true
+  | _, _ => false
+
+def rhole (env : Env) (cfg : Cfg) (r : Rest) (ts : Int) (a b c : Bool) : Rest :=
+  match r.starter with
+  | .punching t0 =>
+    let r1 : Rest := match holeRes env cfg ts a b c with
+      | .ok => { r with sess := some r.nextSess, alive := true, nextSess := r.nextSess + 1 }
+      | _ => r
+    if r.now < t0 + 10000 then { r1 with starter := .cooling (t0 + 10000) } else { r1 with starter := .idle }
+  | _ => r
+
+def rcool (r : Rest) : Rest :=
+  match r.starter with
+  | .cooling u => if u ≤ r.now then { r with starter := .idle } else r
+  | _ => r
+
+def rkeep (cfg : Cfg) (r : Rest) : Rest :=
+  if !cfg.keep || r.closedV then r
+  else if rgtOk r then rgt r
+  else if (rgt r).tokens = 0 then rgt r
+  else { rgt r with tokens := (rgt r).tokens - 1, keepFails := (rgt r).keepFails + 1 }
+
+def rrefill (cfg : Cfg) (r : Rest) : Rest :=
+  if r.tokens < cfg.maxRetries then { r with tokens := r.tokens + 1, refills := r.refills + 1 } else r
+
+/-- what one label can do to the fields other than connections and hand-overs -/
+inductive RStep (env : Env) (cfg : Cfg) (r : Rest) : Rest → Prop
+  | same : RStep env cfg r r
+  | advance (d : Nat) : RStep env cfg r { r with now := r.now + d }
+  | gt : RStep env cfg r (rgt r)
+  | hole (ts : Int) (a b c : Bool) : RStep env cfg r (rhole env cfg r ts a b c)
+  | cool : RStep env cfg r (rcool r)
+  | gone : RStep env cfg r { r with alive := false }
+  | keep : RStep env cfg r (rkeep cfg r)
+  | refill : RStep env cfg r (rrefill cfg r)
+  | close : RStep env cfg r { r with closedV := true, sess := none, alive := false }
+
+theorem signal_rest (s : St) : rest (signalStart s) = rsignal (rest s) := by
+  unfold signalStart rsignal
+  cases hst : s.starter <;> cases hcl : s.closedV <;> simp [rest, hst, hcl]
+
+theorem gt_rest (s : St) : rest (getTunnelConn s).1 = rgt (rest s) ∧ ((getTunnelConn s).2.isSome = rgtOk (rest s)) := by
+  have key := signal_rest { s with sess := none, alive := false }
+  have hr : rest { s with sess := none, alive := false } = { rest s with sess := none, alive := false } := rfl
+  rw [hr] at key
+  have h1 : (rest s).sess = s.sess := rfl
+  have h2 : (rest s).alive = s.alive := rfl
+  unfold getTunnelConn rgt rgtOk
+  rw [h1, h2]
+  cases hs : s.sess <;> cases ha : s.alive <;> simp [key]
+
+theorem step_rstep (env : Env) (cfg : Cfg) (s : St) (e : Ev) : RStep env cfg (rest s) (rest (xstep env cfg s e)) := by
+  have viaAttempt : ∀ (s0 : St) (x : Conn) (ivOk : Bool), rest s0 = rest s →
+      RStep env cfg (rest s) (rest (attempt cfg s0 x ivOk)) := by
+    intro s0 x ivOk h0
+    rw [attempt_rest, (gt_rest s0).1, h0]; exact .gt
+  cases e with
+  | advance d => exact .advance d
+  | arrive c ivOk =>
+    simp only [xstep]
+    split
+    · exact .same
+    · split
+      · exact .same
+      · exact viaAttempt _ _ ivOk rfl
+  | tick c ivOk =>
+    simp only [xstep]
+    split
+    · exact viaAttempt s _ ivOk rfl
+    · exact .same
+  | ctxDone c xferOk =>
+    simp only [xstep]
+    split
+    · split
+      · rw [giveUp_rest]; exact .same
+      · exact .same
+    · exact .same
+  | limit20 c xferOk =>
+    simp only [xstep]
+    split
+    · split
+      · rw [giveUp_rest]; exact .same
+      · exact .same
+    · exact .same
+  | vctxDone c xferOk =>
+    simp only [xstep]
+    split
+    · split
+      · rw [giveUp_rest]; exact .same
+      · exact .same
+    · exact .same
+  | hole ts a b c =>
+    have : rest (xstep env cfg s (.hole ts a b c)) = rhole env cfg (rest s) ts a b c := by
+      simp only [xstep, rhole, rest]
+      split
+      · split <;> split <;> simp_all
+      · simp_all
+    rw [this]; exact .hole ts a b c
+  | coolDone =>
+    have : rest (xstep env cfg s .coolDone) = rcool (rest s) := by
+      simp only [xstep, rcool, rest]
+      split
+      · split <;> simp_all
+      · simp_all
+    rw [this]; exact .cool
+  | peerGone => exact .gone
+  | keepTick =>
+    have : rest (xstep env cfg s .keepTick) = rkeep cfg (rest s) := by
+      have g := gt_rest s
+      simp only [xstep, rkeep]
+      have hcl : (rest s).closedV = s.closedV := rfl
+      rw [hcl]
+      split
+      · rfl
+      · split
+        · next s1 k hg =>
+          have h1 : (getTunnelConn s).1 = s1 := by rw [hg]
+          have h2 : (getTunnelConn s).2 = some k := by rw [hg]
+          have : rgtOk (rest s) = true := by rw [← g.2, h2]; rfl
+          rw [this, ← h1, g.1]; rfl
+        · next s1 hg =>
+          have h1 : (getTunnelConn s).1 = s1 := by rw [hg]
+          have h2 : (getTunnelConn s).2 = none := by rw [hg]
+          have : rgtOk (rest s) = false := by rw [← g.2, h2]; rfl
+          rw [this, ← g.1, h1]
+          simp only [Bool.false_eq_true, if_false]
+          have ht : (rest s1).tokens = s1.tokens := rfl
+          rw [ht]
+          split <;> rfl
+    rw [this]; exact .keep
+  | refill =>
+    have : rest (xstep env cfg s .refill) = rrefill cfg (rest s) := by
+      by_cases h : s.tokens < cfg.maxRetries <;> simp [xstep, rrefill, rest, h]
+    rw [this]; exact .refill
+  | close => exact .close
+
+/-! ### invariants over every history of labels -/
+
+/-- generic induction over `xrun` -/
+theorem xrun_induct (env : Env) (cfg : Cfg) (P : St → Prop) (hstep : ∀ s e, P s → P (xstep env cfg s e)) :
+    ∀ (es : List Ev) (s : St), P s → P (xrun env cfg s es) := by
+  intro es
+  induction es with
+  | nil => intro s h; exact h
+  | cons e es ih => intro s h; exact ih _ (hstep s e h)
+
+theorem getC_xinit (cfg : Cfg) (c : Nat) : getC (xinit cfg) c = none := by
+  unfold xinit; split <;> rfl
+
+theorem hands_xinit (cfg : Cfg) : (xinit cfg).hands = [] := by
+  unfold xinit; split <;> rfl
+
+/-- a connection that ended up closed without having been served: no fallback is configured, or
+    helper.TransferConn failed, or the IV source failed on an encrypted tunnel stream -/
+theorem xv_closed_reason (env : Env) (cfg : Cfg) (es : List Ev) : ClosedInv cfg (xrun env cfg (xinit cfg) es) := by
+  apply xrun_induct env cfg (ClosedInv cfg)
+  · intro s e hs c y w hy hp
+    rcases step_phase env cfg s e c y hy with a | a | ⟨k, a⟩ | a | ⟨w', a, r⟩
+    · exact hs c y w a hp
+    · rw [a] at hp; cases hp
+    · rw [a] at hp; cases hp
+    · rw [a] at hp; cases hp
+    · rw [a] at hp; cases hp
+      rcases r with r | r | r
+      · exact .inl r
+      · exact .inr (.inl ⟨r.1, r.2.1⟩)
+      · exact .inr (.inr ⟨r.1, r.2.1⟩)
+  · intro c x w hx; rw [getC_xinit] at hx; cases hx
+
+/-- with a fallback configured no user connection is ever dropped — as long as TransferConn and the IV
+    source do not fail: every connection is still waiting inside openTunnel, joined to a tunnel stream, or
+    with the fallback visitor — whatever the NAT traversal does and whenever the visitor is closed -/
+theorem xv_fallback_never_drops (env : Env) (cfg : Cfg) (es : List Ev) (hf : cfg.fallback = true)
+    (hg : ∀ e ∈ es, GoodEv e = true) : NoneClosed (xrun env cfg (xinit cfg) es) := by
+  have gen : ∀ (es : List Ev) (s : St), (∀ e ∈ es, GoodEv e = true) → NoneClosed s → NoneClosed (xrun env cfg s es) := by
+    intro es
+    induction es with
+    | nil => intro s _ h; exact h
+    | cons e es ih =>
+      intro s hg h
+      apply ih _ (fun e' m => hg e' (List.mem_cons_of_mem _ m))
+      intro c y w hy hp
+      have ge := hg e (List.mem_cons_self ..)
+      rcases step_phase env cfg s e c y hy with a | a | ⟨k, a⟩ | a | ⟨w', a, r⟩
+      · exact h c y w a hp
+      · rw [a] at hp; cases hp
+      · rw [a] at hp; cases hp
+      · rw [a] at hp; cases hp
+      · rcases r with r | r | r
+        · rw [hf] at r; cases r.2
+        · rw [ge] at r; cases r.2.2
+        · rw [ge] at r; cases r.2.2
+  exact gen es _ hg (fun c x w hx => by rw [getC_xinit] at hx; cases hx)
+
+/-- progress, one step: when the fallback timeout of a connection still inside openTunnel fires, the
+    connection is handed to the fallback visitor (TransferConn working) -/
+theorem xv_deadline_hands_over (env : Env) (cfg : Cfg) (s : St) (c : Nat) (x : Conn)
+    (hx : getC s c = some x) (hp : x.phase = .opening) (hf : cfg.fallback = true)
+    (ht : x.since + cfg.fallbackMs ≤ s.now) :
+    ∃ y, getC (xstep env cfg s (.ctxDone c true)) c = some y ∧ y.phase = .fallback ∧
+      (xstep env cfg s (.ctxDone c true)).hands =
+        { conn := c, dest := .fallback, cause := .deadline, time := s.now, since := x.since } :: s.hands := by
+  have ho : opening? s c = some x := by simp [opening?, hx, hp]
+  have hid := getC_id s c x hx
+  simp only [xstep, ho, hf, Bool.true_and, decide_eq_true ht, if_true, giveUp, Bool.not_true, Bool.false_eq_true, if_false]
+  refine ⟨{ x with phase := .fallback }, ?_, rfl, by rw [hid]⟩
+  have : getC (setPhase s x.id .fallback) c = some { x with phase := .fallback } := by
+    rw [getC_setPhase, hid]; simp [hx, hid]
+  rw [← this]; rfl
+
+/-- every hand-over in every history: a tunnel stream only of the session that existed at that moment; the
+    fallback visitor only when FallbackTo is set, and then not before the fallback timeout (or openTunnel's
+    20 s) has passed since the connection arrived — unless the visitor was being closed -/
+def HandShape (cfg : Cfg) (h : Hand) : Prop :=
+  (∀ k, h.dest = .tunnel k → h.cause = .stream) ∧
+  (h.dest = .fallback → cfg.fallback = true ∧ h.cause ≠ .stream ∧
+     (h.cause = .deadline → h.since + cfg.fallbackMs ≤ h.time) ∧ (h.cause = .limit20 → h.since + 20000 ≤ h.time))
+
+theorem newHand_shape (cfg : Cfg) (s : St) (h : Hand) (n : NewHand cfg s h) : HandShape cfg h := by
+  unfold NewHand at n
+  obtain ⟨ht, hrest⟩ := n
+  rcases hrest with ⟨k, hd, hc, _⟩ | ⟨hd, hf, hc⟩
+  · exact ⟨fun _ _ => hc, fun e => (by rw [hd] at e; cases e)⟩
+  · refine ⟨fun k e => (by rw [hd] at e; cases e), fun _ => ⟨hf, ?_, ?_, ?_⟩⟩
+    · rcases hc with c | c | c <;> rw [c.1] <;> exact fun e => by cases e
+    · intro e; rcases hc with c | c | c
+      · rw [ht]; exact c.2
+      · rw [c.1] at e; cases e
+      · rw [c.1] at e; cases e
+    · intro e; rcases hc with c | c | c
+      · rw [c.1] at e; cases e
+      · rw [ht]; exact c.2
+      · rw [c.1] at e; cases e
+
+theorem xv_hand_timing (env : Env) (cfg : Cfg) (es : List Ev) :
+    ∀ h ∈ (xrun env cfg (xinit cfg) es).hands, HandShape cfg h := by
+  apply xrun_induct env cfg (fun s => ∀ h ∈ s.hands, HandShape cfg h)
+  · intro s e hs h hm
+    rcases step_hands env cfg s e h hm with a | a
+    · exact hs h a
+    · exact newHand_shape cfg s h a
+  · intro h hm; rw [hands_xinit] at hm; cases hm
+
+/-- the tunnel session exists only for a visitor holding the proxy's key whose user is allowed … -/
+def SessAdm (env : Env) (cfg : Cfg) (r : Rest) : Prop := ∀ k, r.sess = some k → XtAdmitted env cfg
+
+theorem rstep_sessAdm (env : Env) (cfg : Cfg) (r r' : Rest) (t : RStep env cfg r r') (h : SessAdm env cfg r) :
+    SessAdm env cfg r' := by
+  cases t with
+  | same => exact h
+  | advance d => exact h
+  | gt =>
+    intro k hk
+    unfold rgt at hk
+    split at hk
+    · exact h k hk
+    · unfold rsignal at hk; split at hk <;> cases hk
+  | hole ts a b c =>
+    intro k hk
+    unfold rhole at hk
+    split at hk
+    · cases hr : holeRes env cfg ts a b c
+      case ok => exact xv_hole_ok_entitled env cfg ts a b c hr
+      all_goals (simp only [hr] at hk; split at hk <;> exact h k hk)
+    · exact h k hk
+  | cool =>
+    intro k hk
+    unfold rcool at hk
+    split at hk
+    · split at hk <;> exact h k hk
+    · exact h k hk
+  | gone => exact h
+  | keep =>
+    intro k hk
+    unfold rkeep at hk
+    have hg : ∀ k, (rgt r).sess = some k → XtAdmitted env cfg := by
+      intro k hk
+      unfold rgt at hk
+      split at hk
+      · exact h k hk
+      · unfold rsignal at hk; split at hk <;> cases hk
+    split at hk
+    · exact h k hk
+    · split at hk
+      · exact hg k hk
+      · split at hk
+        · exact hg k hk
+        · exact hg k hk
+  | refill =>
+    intro k hk
+    unfold rrefill at hk
+    split at hk <;> exact h k hk
+  | close => intro k hk; cases hk
+
+/-- … so a user connection is joined to a tunnel stream only for such a visitor: for every history of labels,
+    whatever STUN, the traversal and the scheduling do -/
+theorem xv_tunnel_entitled (env : Env) (cfg : Cfg) (es : List Ev) :
+    (∀ k, (xrun env cfg (xinit cfg) es).sess = some k → XtAdmitted env cfg) ∧
+    (∀ h ∈ (xrun env cfg (xinit cfg) es).hands, ∀ k, h.dest = .tunnel k → XtAdmitted env cfg) := by
+  apply xrun_induct env cfg (fun s => SessAdm env cfg (rest s) ∧ ∀ h ∈ s.hands, ∀ k, h.dest = .tunnel k → XtAdmitted env cfg)
+  · intro s e ⟨hs, hh⟩
+    refine ⟨rstep_sessAdm env cfg _ _ (step_rstep env cfg s e) hs, ?_⟩
+    intro h hm k hd
+    rcases step_hands env cfg s e h hm with a | ⟨_, ⟨k', hd', _, hk'⟩ | ⟨hd', _⟩⟩
+    · exact hh h a k hd
+    · exact hs k' hk'
+    · rw [hd'] at hd; cases hd
+  · refine ⟨?_, fun h hm => by rw [hands_xinit] at hm; cases hm⟩
+    intro k hk
+    unfold xinit rest at hk
+    split at hk <;> cases hk
+
+/-! ### pacing of hole punching (processTunnelStartEvents) and the retry budget of keepTunnelOpenWorker -/
+
+/-- latest first: any two starts of makeNatHole are at least 10 s apart -/
+def Paced (starts : List Nat) : Prop := List.Pairwise (fun later earlier => earlier + 10000 ≤ later) starts
+
+def PaceInv (r : Rest) : Prop :=
+  Paced r.starts ∧
+  match r.starter with
+  | .punching t0 => (∃ tl, r.starts = t0 :: tl) ∧ t0 ≤ r.now
+  | .cooling u => ∀ t ∈ r.starts, t + 10000 ≤ u
+  | .idle => ∀ t ∈ r.starts, t + 10000 ≤ r.now
+
+theorem rsignal_pace (r : Rest) (h : PaceInv r) : PaceInv (rsignal r) := by
+  unfold rsignal
+  split
+  · next hst hcl =>
+    obtain ⟨hp, hi⟩ := h
+    rw [hst] at hi
+    exact ⟨List.pairwise_cons.mpr ⟨fun t ht => hi t ht, hp⟩, ⟨_, rfl⟩, Nat.le_refl _⟩
+  · exact h
+
+theorem rgt_pace (r : Rest) (h : PaceInv r) : PaceInv (rgt r) := by
+  unfold rgt
+  split
+  · exact h
+  · exact rsignal_pace _ h
+
+theorem rstep_pace (env : Env) (cfg : Cfg) (r r' : Rest) (t : RStep env cfg r r') (h : PaceInv r) : PaceInv r' := by
+  cases t with
+  | same => exact h
+  | advance d =>
+    obtain ⟨hp, hi⟩ := h
+    refine ⟨hp, ?_⟩
+    cases hst : r.starter with
+    | idle => rw [hst] at hi; exact fun t ht => Nat.le_trans (hi t ht) (Nat.le_add_right _ _)
+    | punching t0 => rw [hst] at hi; exact ⟨hi.1, Nat.le_trans hi.2 (Nat.le_add_right _ _)⟩
+    | cooling u => rw [hst] at hi; exact hi
+  | gt => exact rgt_pace r h
+  | hole ts a b c =>
+    unfold rhole
+    cases hst : r.starter with
+    | idle => exact h
+    | cooling u => exact h
+    | punching t0 =>
+      obtain ⟨hp, hi⟩ := h
+      rw [hst] at hi
+      obtain ⟨⟨tl, htl⟩, hle⟩ := hi
+      have hall : ∀ t ∈ r.starts, t ≤ t0 := by
+        intro t ht
+        rw [htl] at ht hp
+        rcases List.mem_cons.mp ht with e | m
+        · exact e ▸ Nat.le_refl _
+        · have := (List.pairwise_cons.mp hp).1 t m; omega
+      simp only
+      by_cases hlt : r.now < t0 + 10000
+      · simp only [hlt, if_true]
+        cases hr : holeRes env cfg ts a b c <;>
+          exact ⟨hp, fun t ht => by have := hall t ht; show t + 10000 ≤ t0 + 10000; omega⟩
+      · simp only [hlt, if_false]
+        cases hr : holeRes env cfg ts a b c <;>
+          exact ⟨hp, fun t ht => by have := hall t ht; show t + 10000 ≤ r.now; omega⟩
+  | cool =>
+    unfold rcool
+    cases hst : r.starter with
+    | idle => exact h
+    | punching t0 => exact h
+    | cooling u =>
+      obtain ⟨hp, hi⟩ := h
+      rw [hst] at hi
+      simp only
+      split
+      · next hu => exact ⟨hp, fun t ht => Nat.le_trans (hi t ht) hu⟩
+      · refine ⟨hp, ?_⟩; rw [hst]; exact hi
+  | gone => exact h
+  | keep =>
+    unfold rkeep
+    have hg := rgt_pace r h
+    split
+    · exact h
+    · split
+      · exact hg
+      · split
+        · exact hg
+        · exact hg
+  | refill =>
+    unfold rrefill
+    split
+    · exact h
+    · exact h
+  | close => exact h
+
+/-- for every history: two starts of makeNatHole are never less than 10 s apart ("avoid too frequently"),
+    however many user connections and keep-alive checks ask for a tunnel meanwhile -/
+theorem xv_hole_starts_paced (env : Env) (cfg : Cfg) (es : List Ev) : Paced (xrun env cfg (xinit cfg) es).starts := by
+  have : PaceInv (rest (xrun env cfg (xinit cfg) es)) := by
+    apply xrun_induct env cfg (fun s => PaceInv (rest s))
+    · intro s e hs; exact rstep_pace env cfg _ _ (step_rstep env cfg s e) hs
+    · unfold xinit
+      split
+      · exact ⟨List.pairwise_cons.mpr ⟨fun t ht => (by cases ht), List.Pairwise.nil⟩, ⟨_, rfl⟩, Nat.le_refl _⟩
+      · exact ⟨List.Pairwise.nil, fun t ht => (by cases ht)⟩
+  exact this.1
+
+def BudgetInv (cfg : Cfg) (r : Rest) : Prop := r.keepFails + r.tokens = cfg.maxRetries + r.refills ∧ r.tokens ≤ cfg.maxRetries
+
+theorem rgt_budget (r : Rest) : (rgt r).tokens = r.tokens ∧ (rgt r).keepFails = r.keepFails ∧ (rgt r).refills = r.refills := by
+  unfold rgt
+  split
+  · exact ⟨rfl, rfl, rfl⟩
+  · unfold rsignal; split <;> exact ⟨rfl, rfl, rfl⟩
+
+theorem rstep_budget (env : Env) (cfg : Cfg) (r r' : Rest) (t : RStep env cfg r r') (h : BudgetInv cfg r) : BudgetInv cfg r' := by
+  cases t with
+  | same => exact h
+  | advance d => exact h
+  | gt => have g := rgt_budget r; unfold BudgetInv; rw [g.1, g.2.1, g.2.2]; exact h
+  | hole ts a b c =>
+    unfold rhole
+    split
+    · simp only; split <;> split <;> exact h
+    · exact h
+  | cool =>
+    unfold rcool
+    split
+    · split <;> exact h
+    · exact h
+  | gone => exact h
+  | keep =>
+    have g := rgt_budget r
+    have hg : BudgetInv cfg (rgt r) := by unfold BudgetInv; rw [g.1, g.2.1, g.2.2]; exact h
+    unfold rkeep
+    split
+    · exact h
+    · split
+      · exact hg
+      · split
+        · exact hg
+        · next hne =>
+          obtain ⟨h1, h2⟩ := hg
+          constructor
+          · show (rgt r).keepFails + 1 + ((rgt r).tokens - 1) = cfg.maxRetries + (rgt r).refills
+            omega
+          · show (rgt r).tokens - 1 ≤ cfg.maxRetries
+            omega
+  | refill =>
+    unfold rrefill
+    split
+    · next hlt =>
+      obtain ⟨h1, h2⟩ := h
+      constructor
+      · show r.keepFails + (r.tokens + 1) = cfg.maxRetries + (r.refills + 1); omega
+      · show r.tokens + 1 ≤ cfg.maxRetries; omega
+    · exact h
+  | close => exact h
+
+/-- for every history: the failed checks of keepTunnelOpenWorker never exceed MaxRetriesAnHour plus the
+    tokens the rate limiter handed back meanwhile (one per hour/MaxRetriesAnHour) -/
+theorem xv_keep_budget (env : Env) (cfg : Cfg) (es : List Ev) :
+    (xrun env cfg (xinit cfg) es).keepFails ≤ cfg.maxRetries + (xrun env cfg (xinit cfg) es).refills := by
+  have : BudgetInv cfg (rest (xrun env cfg (xinit cfg) es)) := by
+    apply xrun_induct env cfg (fun s => BudgetInv cfg (rest s))
+    · intro s e hs; exact rstep_budget env cfg _ _ (step_rstep env cfg s e) hs
+    · unfold xinit; split <;> exact ⟨by simp [rest], Nat.le_refl _⟩
+  have h := this.1
+  simp only [rest] at h
+  omega
+
+/-! ### tunnel session kinds -/
+
+/-- both ends build the same kind of session (KCP+yamux or QUIC) for EVERY protocol string: the visitor decides
+    from its own configuration, the proxy's frpc from NatHoleResp.Protocol, which the server copies from the
+    visitor's message -/
+theorem xv_session_kinds_agree (cfg : Cfg) : proxySessKind (respProtocol cfg.protocol) = visitorSessKind cfg := rfl
+
+/-! ## §8 wrapper stacks of a tunnel stream (visitor frpc ↔ proxy frpc, no server in between) -/
+
+section stacks
+open Layers
+
+/-- client/visitor/xtcp.go builds what every visitor builds; client/proxy/xtcp.go hands the stream to the
+    common HandleTCPWorkConnection -/
+theorem xt_stacks_are_common (e c : Bool) (o : Opts) :
+    tunnelVisitorStack e c = visitorStack e c ∧ tunnelProxyStack o = clientStack o := ⟨rfl, rfl⟩
+
+/-- the two ends of a tunnel stream mirror each other exactly when the visitor declares the proxy's
+    useEncryption / useCompression (nothing in between translates, unlike the two legs of stcp) -/
+theorem xt_mirror_iff (ve vc : Bool) (o : Opts) :
+    tunnelVisitorStack ve vc = transforming (tunnelProxyStack o) ↔ (ve = o.enc ∧ vc = o.comp) := by
+  cases o with | mk e c ls lc =>
+  cases ve <;> cases vc <;> cases e <;> cases c <;> cases ls <;> cases lc <;> decide
+
+def tunnelVisitorLayer (encL compL : Layers.Layer) (e c : Bool) : Layers.Layer :=
+  stackLayer (instantiate encL compL 0 (tunnelVisitorStack e c))
+
+def tunnelProxyLayer (encL compL : Layers.Layer) (burst : Nat) (o : Opts) : Layers.Layer :=
+  stackLayer (instantiate encL compL burst (tunnelProxyStack o))
+
+theorem xt_visitor_layer_eq (encL compL : Layers.Layer) (burst : Nat) (o : Opts) :
+    C01.serverLayer encL compL burst { o with limSrv := false } = tunnelVisitorLayer encL compL o.enc o.comp := by
+  cases o with | mk e c ls lc => cases e <;> cases c <;> rfl
+
+theorem xt_proxy_layer_eq (encL compL : Layers.Layer) (burst : Nat) (o : Opts) :
+    C01.clientLayer encL compL burst { o with limSrv := false } = tunnelProxyLayer encL compL burst o := rfl
+
+/-- user → backend over the tunnel: whatever prefix of the visitor's encoded stream reaches the proxy's frpc, in
+    whatever chunking, its stack (limiter, enc, comp) decodes it to a prefix of what the user wrote -/
+theorem xt_tunnel_down_prefix {encL compL : Layers.Layer} (he : Lawful encL) (hc : Lawful compL) (burst : Nat) (hb : 0 < burst)
+    (o : Opts) (ps cs : List C01Bytes)
+    (hw : cs.flatten <+: ((tunnelVisitorLayer encL compL o.enc o.comp).Eout ps).flatten) :
+    (tunnelProxyLayer encL compL burst o).Dout cs <+: ps.flatten := by
+  rw [← xt_visitor_layer_eq encL compL burst o] at hw
+  rw [← xt_proxy_layer_eq]
+  exact C01.tunnel_down_prefix he hc burst hb _ ps cs hw
+
+theorem xt_tunnel_down_complete {encL compL : Layers.Layer} (he : Lawful encL) (hc : Lawful compL) (burst : Nat) (hb : 0 < burst)
+    (o : Opts) (ps cs : List C01Bytes)
+    (hw : cs.flatten = ((tunnelVisitorLayer encL compL o.enc o.comp).Eout ps).flatten) :
+    (tunnelProxyLayer encL compL burst o).Dout cs = ps.flatten := by
+  rw [← xt_visitor_layer_eq encL compL burst o] at hw
+  rw [← xt_proxy_layer_eq]
+  exact C01.tunnel_down_complete he hc burst hb _ ps cs hw
+
+/-- backend → user -/
+theorem xt_tunnel_up_prefix {encL compL : Layers.Layer} (he : Lawful encL) (hc : Lawful compL) (burst : Nat) (hb : 0 < burst)
+    (o : Opts) (ps cs : List C01Bytes)
+    (hw : cs.flatten <+: ((tunnelProxyLayer encL compL burst o).Eout ps).flatten) :
+    (tunnelVisitorLayer encL compL o.enc o.comp).Dout cs <+: ps.flatten := by
+  rw [← xt_proxy_layer_eq] at hw
+  rw [← xt_visitor_layer_eq encL compL burst o]
+  exact C01.tunnel_up_prefix he hc burst hb _ ps cs hw
+
+theorem xt_tunnel_up_complete {encL compL : Layers.Layer} (he : Lawful encL) (hc : Lawful compL) (burst : Nat) (hb : 0 < burst)
+    (o : Opts) (ps cs : List C01Bytes)
+    (hw : cs.flatten = ((tunnelProxyLayer encL compL burst o).Eout ps).flatten) :
+    (tunnelVisitorLayer encL compL o.enc o.comp).Dout cs = ps.flatten := by
+  rw [← xt_proxy_layer_eq] at hw
+  rw [← xt_visitor_layer_eq encL compL burst o]
+  exact C01.tunnel_up_complete he hc burst hb _ ps cs hw
+
+end stacks
+
+/-- with the keys: both ends key the cipher with the SECRET key (client/proxy/xtcp.go passes
+    `[]byte(pxy.cfg.Secretkey)`, not the auth token an stcp work connection uses); equal declarations ⇒ the
+    payload arrives unchanged, and the stacks are equal only for equal declarations -/
+theorem xt_tunnel_keyed (e c : Bool) (x : List (List Visitor.Layer × Nat)) :
+    decode (tunnelProxyEnd e c) (encode (tunnelVisitorEnd e c) x) = some x ∧
+    (e = true → tunnelProxyEnd e c ≠ ownerEnd e c) := by
+  refine ⟨decode_encode _ x, ?_⟩
+  intro he; subst he; cases c <;> decide
+
+theorem xt_tunnel_keyed_iff : ∀ ve vc pe pc : Bool, tunnelVisitorEnd ve vc = tunnelProxyEnd pe pc ↔ (ve = pe ∧ vc = pc) := by
+  decide
+
+example : decode (tunnelProxyEnd true true) (encode (tunnelVisitorEnd true false) [([], 7)]) ≠ some [([], 7)] := by decide
+
+/-! ## §9 the fallback visitor, and the predicate the driver evaluates on what the real visitors did -/
+
+/-- a connection transferred to the stcp fallback visitor (client/visitor/stcp.go: NewVisitorConn signed with
+    `GetAuthKey(SecretKey, now)`) reaches an owner only for the stcp proxy's key and an allowed user -/
+theorem xv_fallback_served_entitled (H : Str → Str) (ls : List (Str × Listener)) (name fsk : Str) (ts : Int) (user : Str)
+    (conn lid : Nat) (h : (newConn H ls name ts (authKey H fsk ts) user conn).2 = .queued lid) :
+    ∃ l, aget ls name = some l ∧ l.lid = lid ∧ authKey H fsk ts = authKey H l.sk ts ∧ UserAllowed l.allow user :=
+  newConn_sound H ls name ts (authKey H fsk ts) user conn lid (.inl h)
+
+/-- would the server admit this visitor's signed request -/
+def xtAdmB (env : Env) (cfg : Cfg) (ts : Int) : Bool :=
+  natAdmB env.H env.cfgs cfg.server ts (visitSign env.H cfg ts) env.user
+
+theorem xtAdmB_entitled (env : Env) (cfg : Cfg) (ts : Int) (h : xtAdmB env cfg ts = true) : XtAdmitted env cfg := by
+  obtain ⟨ch, c, hc, _, hk, hu⟩ := (natAdmB_iff _ _ _ _ _ _).mp h
+  exact ⟨ts, c, hc, hk, hu⟩
+
+/-- the model's own tunnel sessions satisfy it -/
+theorem xv_hole_ok_admB (env : Env) (cfg : Cfg) (now : Int) (a b c : Bool)
+    (h : holeRes env cfg now a b c = .ok) : xtAdmB env cfg now = true := by
+  obtain ⟨hpre, _, ⟨ch, hex⟩, _, _⟩ := (xv_hole_ok_iff env cfg now a b c).mp h
+  obtain ⟨c1, hc1, hu⟩ := precheck_sound env.fixed env.H env.cfgs [] [] cfg.server 0 [] env.user hpre
+  obtain ⟨c2, hc2, _, hk, _⟩ := nat_grant_partial env.fixed env.H env.cfgs [] [] cfg.server now (visitSign env.H cfg now) env.user ch hex
+  rw [hc1] at hc2; cases hc2
+  unfold xtAdmB natAdmB
+  simp [hc1, hk, (allowedB_iff _ _).mpr hu]
+
+inductive XRoute | tunnel | fallback | pending | closed | other
+  deriving DecidableEq, Repr
+
+/-- one user connection as the harness saw it: who served it, how many backend connections it caused on ALL
+    backends together, whether the bytes arrived intact each way -/
+structure XObs where
+  route : XRoute
+  hits : Nat
+  up : Bool
+  down : Bool
+
+/-- `admX` = the server admits this visitor to the xtcp proxy, `fbCfg` = FallbackTo is set, `admF` = the server
+    admits the fallback visitor to its stcp proxy -/
+def xtHoldsOn (admX fbCfg admF : Bool) (o : XObs) : Bool :=
+  match o.route with
+  | .tunnel => admX && o.hits == 1 && o.up && o.down
+  | .fallback => fbCfg && admF && o.hits == 1 && o.up && o.down
+  | .pending => o.hits == 0 && !(fbCfg && admF)
+  | .closed => o.hits == 0 && !(fbCfg && admF)
+  | .other => false
+
+theorem xtHoldsOn_sound (env : Env) (cfg : Cfg) (ts : Int) (H : Str → Str) (ls : List (Str × Listener)) (fname fsk : Str)
+    (fts : Int) (user : Str) (fbCfg : Bool) (o : XObs)
+    (h : xtHoldsOn (xtAdmB env cfg ts) fbCfg (admissibleB H ls fname fts (authKey H fsk fts) user) o = true) :
+    (o.route = .tunnel → XtAdmitted env cfg ∧ o.hits = 1 ∧ o.up = true ∧ o.down = true) ∧
+    (o.route = .fallback → fbCfg = true ∧ (∃ lid, Admissible H ls fname fts (authKey H fsk fts) user lid) ∧
+        o.hits = 1 ∧ o.up = true ∧ o.down = true) ∧
+    ((o.route = .pending ∨ o.route = .closed) → o.hits = 0 ∧
+        ¬ (fbCfg = true ∧ ∃ lid, Admissible H ls fname fts (authKey H fsk fts) user lid)) ∧
+    o.route ≠ .other := by
+  unfold xtHoldsOn at h
+  have hadm : admissibleB H ls fname fts (authKey H fsk fts) user = true ↔
+      ∃ lid, Admissible H ls fname fts (authKey H fsk fts) user lid := admissibleB_iff _ _ _ _ _ _
+  refine ⟨?_, ?_, ?_, ?_⟩
+  · intro hr
+    simp only [hr, Bool.and_eq_true, beq_iff_eq] at h
+    exact ⟨xtAdmB_entitled env cfg ts h.1.1.1, h.1.1.2, h.1.2, h.2⟩
+  · intro hr
+    simp only [hr, Bool.and_eq_true, beq_iff_eq] at h
+    exact ⟨h.1.1.1.1, hadm.mp h.1.1.1.2, h.1.1.2, h.1.2, h.2⟩
+  · intro hr
+    have h' : (o.hits == 0 && !(fbCfg && admissibleB H ls fname fts (authKey H fsk fts) user)) = true := by
+      rcases hr with hr | hr <;> simpa only [hr] using h
+    simp only [Bool.and_eq_true, beq_iff_eq, Bool.not_eq_true', Bool.and_eq_false_iff] at h'
+    refine ⟨h'.1, ?_⟩
+    intro hc
+    obtain ⟨hf, ha⟩ := hc
+    have ha' := hadm.mpr ha
+    rcases h'.2 with e | e
+    · rw [hf] at e; cases e
+    · rw [ha'] at e; cases e
+  · intro hr
+    simp only [hr] at h
+    cases h
+
+/-! ### non-vacuity: a concrete visitor and histories -/
+
+def exEnv : Env := { H := exH, fixed := true, cfgs := [([112], { sk := [115], allow := [[97]], chan := 0 })], user := [97] }
+def exCfg : Cfg := { server := [112], sk := [115], enc := true, comp := false, protocol := [113], keep := false,
+                     maxRetries := 8, minRetry := 90, fallback := true, fallbackMs := 300 }
+
+example : XtAdmitted exEnv exCfg := ⟨7, _, rfl, rfl, .inl (by decide)⟩
+example : holeRes exEnv exCfg 7 true true true = .ok := by decide
+example : holeRes exEnv { exCfg with sk := [120] } 7 true true true = .exchRefused .authFailed := by decide
+example : holeRes { exEnv with user := [98] } exCfg 7 true true true = .preRefused .notAllowed := by decide
+example : holeRes exEnv exCfg 7 false true true = .prepareFailed := by decide
+/-- the hole is made in time: the connection is joined to the tunnel, exactly one hand-over -/
+example : ((xrun exEnv exCfg (xinit exCfg) [.arrive 1 true, .advance 200, .hole 7 true true true, .tick 1 true,
+            .advance 200, .ctxDone 1 true]).hands.map (fun h => (h.conn, h.dest))) = [(1, .tunnel 0)] := by decide
+/-- STUN does not answer: after the fallback timeout the connection goes to the fallback visitor, once -/
+example : ((xrun exEnv exCfg (xinit exCfg) [.arrive 1 true, .tick 1 true, .advance 300, .hole 7 false true true,
+            .ctxDone 1 true, .tick 1 true, .ctxDone 1 true]).hands.map (fun h => (h.conn, h.dest, h.time))) =
+          [(1, .fallback, 300)] := by decide
+/-- before the timeout `ctxDone` is not enabled -/
+example : (xrun exEnv exCfg (xinit exCfg) [.arrive 1 true, .advance 299, .ctxDone 1 true]).hands = [] := by decide
 
 end C08
 end Frp
